@@ -252,6 +252,51 @@ fn run_many_groups(cx: &mut CaseCx, case: &Value) {
 }
 
 
+
+/// magnitudes: associated data beyond 64 KiB, thresholds in the hundreds
+fn run_magnitudes(cx: &mut CaseCx, case: &Value) {
+  let t = case["t"].as_u64().unwrap() as u32;
+  let auxlen = case["auxlen"].as_u64().unwrap() as usize;
+  let server = AggregationServer::new(t, "t");
+  let meas = b"magnitude".to_vec();
+  let rnd = local_randomness(&meas, b"t", t);
+  let mut reps: Vec<Rep> = vec![];
+  for k in 0..t as usize + 1 {
+    getrandom::verif::set_group(k as u32 + 1);
+    let aux = if k == 0 && auxlen > 0 { Some(prbytes(auxlen as u64, auxlen)) } else { aux_for(k) };
+    if let Ok(msg) = gen_report(&meas, b"t", t, &rnd, &aux) {
+      if let Some(x) = share_x(&msg.share.to_bytes()) {
+        reps.push(Rep { msg, meas: meas.clone(), aux, x });
+      }
+    }
+  }
+  // a second, below-threshold group
+  let m2 = b"lonely".to_vec();
+  if t >= 2 {
+    if let Ok(msg) = gen_report(&m2, b"t", t, &local_randomness(&m2, b"t", t), &None) {
+      if let Some(x) = share_x(&msg.share.to_bytes()) {
+        reps.push(Rep { msg, meas: m2, aux: None, x });
+      }
+    }
+  }
+  let all: Vec<&Rep> = reps.iter().collect();
+  let want = expected(&all, t);
+  cx.nontrivial(fnv_str(&case.to_string()));
+  for (pn, pool) in pools(&[1, 4]) {
+    for rev in [false, true] {
+      let mut msgs: Vec<Message> = reps.iter().map(|r| r.msg.clone()).collect();
+      if rev {
+        msgs.reverse();
+      }
+      if !judge(cx, observe(&server, &pool, &msgs), &want, &|| json!({"t": t, "largest_aux": auxlen, "reports": reps.len(), "reversed": rev, "worker_threads": pn})) {
+        return;
+      }
+    }
+  }
+  cx.count("revealed_groups", want.len() as u64);
+  cx.outcome(format!("t={} aux={}", t, auxlen));
+}
+
 /// one revealed group per measurement LENGTH 0..=60 (framing / padding boundaries), with and without aux
 fn run_lengths(cx: &mut CaseCx, case: &Value) {
   let t = case["t"].as_u64().unwrap() as u32;
@@ -388,6 +433,21 @@ pub fn spec() -> PropSpec {
         },
         run: run_vector,
         min_counts: &[("revealed_groups", 50), ("hidden_groups", 50), ("states", 10_000)],
+      },
+      Check {
+        name: "magnitudes",
+        rule: "associated data of 65527, 65528, 65535, 65536, 70000, 200000 bytes on one client (t = 2); thresholds 64, 65, 66, 128, 129, 130, 257, 513, 514 with t+1 reports and a second group below threshold; pools of 1 and 4 threads, input in both orders",
+        gen: |tier| {
+          let mut v: Vec<Value> = [65527u64, 65528, 65535, 65536, 70000, 200000].iter().map(|a| json!({"t": 2, "auxlen": a})).collect();
+          let mut ts = vec![64u64, 65, 66, 128, 129, 130, 257, 513, 514];
+          if tier.thorough() {
+            ts.extend([192, 193, 511, 512, 515, 600]);
+          }
+          v.extend(ts.into_iter().map(|t| json!({"t": t, "auxlen": 0})));
+          v
+        },
+        run: run_magnitudes,
+        min_counts: &[("revealed_groups", 12)],
       },
       Check {
         name: "measurement-lengths",
